@@ -7,13 +7,13 @@ RULE = ("programs: 25 shadowing forms x 3 builtin names x all 8 subsets of disab
         "dead-code / value-use variants (use in an imported source module, module that shadows the name itself, main that "
         "declares the name while the module uses the builtin, import inside an uncalled function, const initialiser, removed branch); "
         "the TLA+ static resolver predicts a compile error iff some reference resolves to a disabled builtin; replay with optimizer "
-        "on and off; compiled bytecode scanned for GETBUILTIN of a disabled name; non-trivial = disabled set not empty")
+        "on and off, as a whole script and as a fragment of an Eval session whose earlier fragments referred to every disabled name (main scope and function body, twice) and had to be refused; compiled bytecode scanned for GETBUILTIN of a disabled name; non-trivial = disabled set not empty")
 
 def run(ctx):
     out = ctx.path("c13.ndjson")
     ctx.tlc("UgoSemFam", "UgoSemFam_c13", env=dict(OUT=out), timeout=2400, name="c13")
     res = ctx.path("c13-res.ndjson")
-    ctx.vh("sem", out, res, "default,noopt" if ctx.quick else "default,noopt,limit1,limit3")
+    ctx.vh("sem", out, res, "default,noopt,default+sess,noopt+sess" if ctx.quick else "default,noopt,limit1,limit3,default+sess,noopt+sess,limit1+sess")
     n = 0
     for r in vlib.read_ndjson(res):
         n += 1
